@@ -468,6 +468,24 @@ func (r *renderer) dot() {
 	r.b.WriteByte('.')
 }
 
+// intLit writes an index or slice number; the grammar (number = ["-"] 1*digit)
+// allows leading zeros, which never change the value (08 is eight, not octal).
+func (r *renderer) intLit(v int64) {
+	t := strconv.FormatInt(v, 10)
+	if k := r.c.Choose("intzeros", 8); k == 1 || k == 2 {
+		zeros := "0"
+		if k == 2 {
+			zeros = "000"
+		}
+		if t[0] == '-' {
+			t = "-" + zeros + t[1:]
+		} else {
+			t = zeros + t
+		}
+	}
+	r.b.WriteString(t)
+}
+
 func (r *renderer) step(s Step, first bool) {
 	switch s.Kind {
 	case SField:
@@ -495,7 +513,7 @@ func (r *renderer) step(s Step, first bool) {
 		}
 		r.b.WriteByte('[')
 		r.gap(false)
-		r.b.WriteString(strconv.FormatInt(s.Index, 10))
+		r.intLit(s.Index)
 		r.gap(false)
 		r.b.WriteByte(']')
 	case SSlice:
@@ -505,19 +523,19 @@ func (r *renderer) step(s Step, first bool) {
 		r.b.WriteByte('[')
 		r.gap(false)
 		if s.Start != nil {
-			r.b.WriteString(strconv.FormatInt(*s.Start, 10))
+			r.intLit(*s.Start)
 			r.gap(false)
 		}
 		r.b.WriteByte(':')
 		r.gap(false)
 		if s.Stop != nil {
-			r.b.WriteString(strconv.FormatInt(*s.Stop, 10))
+			r.intLit(*s.Stop)
 			r.gap(false)
 		}
 		if s.Stride != nil {
 			r.b.WriteByte(':')
 			r.gap(false)
-			r.b.WriteString(strconv.FormatInt(*s.Stride, 10))
+			r.intLit(*s.Stride)
 			r.gap(false)
 		} else if r.c.Choose("slicecolon", 4) == 1 {
 			r.b.WriteByte(':')
